@@ -149,4 +149,141 @@ example {α : Type} (H2 : α → α → α) (a b : α) (hab : a ≠ b) (h : leve
   · simp only [List.cons.injEq, and_true] at h1; exact absurd h1.1 hab
   · exact h2
 
+/-! ### the whole tree (session 9) -/
+
+theorem levelUp_length {α : Type} (H2 : α → α → α) : ∀ l : List α, (levelUp H2 l).length = (l.length + 1) / 2
+  | [] => by simp [levelUp]
+  | [_] => by simp [levelUp]
+  | _ :: _ :: rest => by
+    have := levelUp_length H2 rest
+    simp only [levelUp, List.length_cons]
+    omega
+
+theorem dupLast_eq {α : Type} : ∀ (l : List α) (x : α), l ≠ [] → l.getLast? = some x → dupLast l = l ++ [x]
+  | [], _, h, _ => absurd rfl h
+  | [a], x, _, hx => by simp at hx; subst hx; rfl
+  | a :: b :: r, x, _, hx => by
+    have : (b :: r).getLast? = some x := by simpa [List.getLast?_cons_cons] using hx
+    have ih := dupLast_eq (b :: r) x (by simp) this
+    show a :: dupLast (b :: r) = _
+    rw [ih]; rfl
+
+theorem dupLast_injective {α : Type} (l₁ l₂ : List α) (hl : l₁.length = l₂.length) (h : dupLast l₁ = dupLast l₂) : l₁ = l₂ := by
+  cases l₁ with
+  | nil => cases l₂ with
+    | nil => rfl
+    | cons _ _ => simp at hl
+  | cons a r =>
+    cases l₂ with
+    | nil => simp at hl
+    | cons c s =>
+      obtain ⟨x, hx⟩ : ∃ x, (a :: r).getLast? = some x := ⟨(a :: r).getLast (by simp), List.getLast?_eq_some_getLast (by simp)⟩
+      obtain ⟨y, hy⟩ : ∃ y, (c :: s).getLast? = some y := ⟨(c :: s).getLast (by simp), List.getLast?_eq_some_getLast (by simp)⟩
+      rw [dupLast_eq _ x (by simp) hx, dupLast_eq _ y (by simp) hy] at h
+      exact List.append_inj_left h hl
+
+/-- the tree above the (even) leaf level: two levels of equal length with the same result are equal, or the node hash collides -/
+theorem build_sensitive {α : Type} (H2 : α → α → α) : ∀ (f : Nat) (l₁ l₂ : List α) (r : α), l₁.length = l₂.length →
+    build H2 f l₁ = some r → build H2 f l₂ = some r → l₁ = l₂ ∨ ∃ a b c d, (a, b) ≠ (c, d) ∧ H2 a b = H2 c d := by
+  intro f
+  induction f with
+  | zero => intro l₁ l₂ r _ h; simp [build] at h
+  | succ f ih =>
+    intro l₁ l₂ r hl h1 h2
+    match l₁, l₂, hl with
+    | [], [], _ => exact Or.inl rfl
+    | [a], [c], _ =>
+      simp only [build, Option.some.injEq] at h1 h2
+      by_cases hac : a = c
+      · left; rw [hac]
+      · right; exact ⟨a, a, c, c, by simp [hac], h1.trans h2.symm⟩
+    | [a, b], [c, d], _ =>
+      simp only [build, Option.some.injEq] at h1 h2
+      by_cases hp : (a, b) = (c, d)
+      · left; simp only [Prod.mk.injEq] at hp; rw [hp.1, hp.2]
+      · right; exact ⟨a, b, c, d, hp, h1.trans h2.symm⟩
+    | a :: b :: c :: r₁, d :: e :: g :: r₂, hl =>
+      simp only [build] at h1 h2
+      have hlen : (levelUp H2 (a :: b :: c :: r₁)).length = (levelUp H2 (d :: e :: g :: r₂)).length := by
+        rw [levelUp_length, levelUp_length, hl]
+      rcases ih _ _ r hlen h1 h2 with he | hc
+      · exact C10_levelUp_sensitive H2 _ _ hl he
+      · exact Or.inr hc
+    | [], _ :: _, hl => simp at hl
+    | _ :: _, [], hl => simp at hl
+    | [_], _ :: _ :: _, hl => simp at hl
+    | _ :: _ :: _, [_], hl => simp at hl
+    | [_, _], _ :: _ :: _ :: _, hl => simp at hl
+    | _ :: _ :: _ :: _, [_, _], hl => simp at hl
+
+/-- **the whole tree**: two lists of leaves of the same length — the transactions (or receipts, or timeout entries) of a block with
+any one of them replaced, or two of them swapped — have the same root only if they are the same list, or the node hash `H2`
+(SHA-256 of left ‖ right) collides on two different pairs that the two computations actually hashed -/
+theorem C10_merkle_root_sensitive {α : Type} (H2 : α → α → α) (l₁ l₂ : List α) (r : α) (hl : l₁.length = l₂.length)
+    (h1 : root H2 l₁ = some r) (h2 : root H2 l₂ = some r) :
+    l₁ = l₂ ∨ ∃ a b c d, (a, b) ≠ (c, d) ∧ H2 a b = H2 c d := by
+  cases l₁ with
+  | nil => cases l₂ with
+    | nil => exact Or.inl rfl
+    | cons _ _ => simp at hl
+  | cons x xs =>
+    cases l₂ with
+    | nil => simp at hl
+    | cons y ys =>
+      simp only [root] at h1 h2
+      rw [← hl] at h2
+      by_cases hodd : ((x :: xs).length % 2 == 1) = true
+      · simp only [hodd, if_true] at h1 h2
+        have hdl : (dupLast (x :: xs)).length = (dupLast (y :: ys)).length := by
+          obtain ⟨u, hu⟩ : ∃ u, (x :: xs).getLast? = some u := ⟨(x :: xs).getLast (by simp), List.getLast?_eq_some_getLast (by simp)⟩
+          obtain ⟨v, hv⟩ : ∃ v, (y :: ys).getLast? = some v := ⟨(y :: ys).getLast (by simp), List.getLast?_eq_some_getLast (by simp)⟩
+          rw [dupLast_eq _ u (by simp) hu, dupLast_eq _ v (by simp) hv]
+          simp only [List.length_append, hl, List.length_singleton]
+        rw [← hdl] at h2
+        rcases build_sensitive H2 _ _ _ r hdl h1 h2 with he | hc
+        · exact Or.inl (dupLast_injective _ _ hl he)
+        · exact Or.inr hc
+      · simp only [hodd] at h1 h2
+        simp only [Bool.false_eq_true, if_false] at h1 h2
+        rw [← hl] at h2
+        exact build_sensitive H2 _ _ _ r hl h1 h2
+
+/-- the root of a non-empty list of leaves exists (the fuel of the model's recursion suffices) -/
+theorem build_total {α : Type} (H2 : α → α → α) : ∀ (f : Nat) (l : List α), 1 ≤ l.length → l.length ≤ f → (build H2 f l).isSome = true := by
+  intro f
+  induction f with
+  | zero => intro l h1 h2; omega
+  | succ f ih =>
+    intro l h1 h2
+    match l with
+    | [] => simp at h1
+    | [a] => rfl
+    | [a, b] => rfl
+    | a :: b :: c :: r =>
+      simp only [build]
+      apply ih
+      · rw [levelUp_length]; simp only [List.length_cons]; omega
+      · rw [levelUp_length]; simp only [List.length_cons] at h2 ⊢; omega
+
+/-- … hence every non-empty block has a root -/
+theorem C10_merkle_root_exists {α : Type} (H2 : α → α → α) (l : List α) (h : l ≠ []) : (root H2 l).isSome = true := by
+  cases l with
+  | nil => exact absurd rfl h
+  | cons x xs =>
+    simp only [root]
+    apply build_total
+    · split
+      · obtain ⟨u, hu⟩ : ∃ u, (x :: xs).getLast? = some u := ⟨(x :: xs).getLast (by simp), List.getLast?_eq_some_getLast (by simp)⟩
+        rw [dupLast_eq _ u (by simp) hu]; simp
+      · simp
+    · omega
+
+/-- non-vacuity: two blocks of three transactions that differ in the middle one -/
+example {α : Type} (H2 : α → α → α) (a b b' c : α) (hb : b ≠ b') (r : α)
+    (h1 : root H2 [a, b, c] = some r) (h2 : root H2 [a, b', c] = some r) :
+    ∃ x y z w, (x, y) ≠ (z, w) ∧ H2 x y = H2 z w := by
+  rcases C10_merkle_root_sensitive H2 [a, b, c] [a, b', c] r rfl h1 h2 with h | h
+  · simp only [List.cons.injEq, true_and, and_true] at h; exact absurd h hb
+  · exact h
+
 end Bxh.Props.C10
